@@ -116,7 +116,22 @@ def sim_canon(sim):
     return ["ok", int(sim.grid.rows), int(sim.grid.cols), [agent_canon(k, a) for k, a in sim.agents.items()]]
 
 
+# the exception type behind every named rejection: when a message is not recognised (it was re-worded) the case is
+# judged again under the name the model expects, provided the TYPE is right (core.judge_cases / relabel)
+KIND_TYPE = {"reservedKey": "AssertionError", "ragged": "AssertionError", "badShape": "AssertionError",
+             "cellTaken": "AssertionError", "posMismatch": "AssertionError", "emptyFile": "IndexError",
+             "noCell": "RuntimeError", "noAgents": "ValueError"}
+UNNAMED = {}          # where -> exception type name, of the run_real call in progress
+
+
 def err_kind(ex, where):
+    k = _err_kind(ex, where)
+    if k == "crash":
+        UNNAMED[where] = type(ex).__name__
+    return k
+
+
+def _err_kind(ex, where):
     msg = str(ex)
     if isinstance(ex, AssertionError):
         if "reserved for empty space" in msg:
@@ -132,8 +147,8 @@ def err_kind(ex, where):
         return "crash"
     if isinstance(ex, IndexError) and where == "file":
         return "emptyFile"
-    if isinstance(ex, RuntimeError) and "Could not find a cell" in msg:
-        return "noCell"
+    if isinstance(ex, RuntimeError):
+        return "noCell"               # the only RuntimeError of the placement states, whatever its wording
     if isinstance(ex, ValueError) and where == "reset" and "max()" in msg:
         return "noAgents"
     return "crash"
@@ -320,7 +335,7 @@ def run_real(desc):
                 if a.initial_position is not None:
                     placed.append([id_canon(k), pos_canon(a.position)])
                     if k not in sim_a.grid[tuple(a.position)]:
-                        raise RuntimeError("grid does not hold the agent at its position")
+                        raise LookupError("grid does not hold the agent at its position")   # -> "crash"
             out_r = ["ok", placed]
         except Exception as ex:  # noqa: BLE001
             out_r = ["err", err_kind(ex, "reset")]
@@ -356,8 +371,29 @@ class BuildersProp(core.Prop):
     ]
 
     # -- cases ------------------------------------------------------------------------------
+    def relabel(self, case, verdict):
+        if not getattr(case, "unnamed", None):
+            return None
+        model = wire.dec(verdict.model)
+        impl = [list(o) for o in case.impl_list]
+        changed = False
+        for i, where in enumerate(("array", "file", "grid", "direct", "reset")):
+            t = case.unnamed.get(where)
+            m = model[i] if i < len(model) else None
+            if t and isinstance(m, list) and len(m) == 2 and str(m[0]) == "err" and KIND_TYPE.get(str(m[1])) == t \
+                    and impl[i] == ["err", "crash"]:
+                impl[i] = ["err", str(m[1])]
+                changed = True
+        if changed and "array" in case.unnamed and impl[4] == ["err", "crash"] and "reset" not in case.unnamed:
+            impl[4] = ["err", impl[0][1]]        # no array-built simulation to reset: the entry repeats the array's
+        return self._make_case(case.desc, case.req, impl, {}) if changed else None
+
     def case_from_desc(self, desc):
+        UNNAMED.clear()
         req, impl = run_real(desc)
+        return self._make_case(desc, req, impl, dict(UNNAMED))
+
+    def _make_case(self, desc, req, impl, unnamed):
         line = wire.enc(["build"] + req + [impl])
         cells, reg = desc["cells"], desc["reg"]
         regch = [ch for ch, _ in reg]
@@ -389,8 +425,12 @@ class BuildersProp(core.Prop):
         for name, o in zip(("array", "file", "grid", "direct"), impl[:4]):
             if o[0] == "err":
                 tags.append(f"{name}:{o[1]}")
-        return core.Case(desc, line, wire.enc(impl), key=json.dumps(desc, sort_keys=True),
-                         nontrivial=n_layout >= 1 and rows * cols > 1, tags=tags)
+        c = core.Case(desc, line, wire.enc(impl), key=json.dumps(desc, sort_keys=True),
+                      nontrivial=n_layout >= 1 and rows * cols > 1, tags=tags)
+        c.req, c.impl_list, c.unnamed = req, impl, unnamed
+        if unnamed:
+            c.tags.append("unnamed-exception")
+        return c
 
     def cases(self, tier, rng):
         quick = tier == "quick"
